@@ -20,9 +20,10 @@ def isExit : Stmt → Bool
   | .brk => true
   | .cont => true
   | .brkLoop => true
+  | .jump _ => true
   | _ => false
 
-/-- a body that is a single `break` / `continue` / `break_loop` -/
+/-- a body that is a single `break` / `continue` / `break_loop` / `jump` -/
 def loneExit : Stmts → Bool
   | .cons s .nil => isExit s
   | _ => false
@@ -40,7 +41,8 @@ mutual
 empty blocks (F1); from level 2 on `forever` / `while` / `for` with `continue` and `break_loop` (F2; the init and increment
 statements of `for` are F0 statements); from level 3 on `switch` with `case` / `default` / `break`, fall-through and
 cases sharing a block (F3; not: a switch without cases, a header op that ends the routine, a case block that is a single
-`break` / `continue` / `break_loop`, which `_process_block` may fold into the header jump) -/
+`break` / `continue` / `break_loop`, which `_process_block` may fold into the header jump); from level 4 on user labels,
+`jump @l` and `call @l` anywhere (F4) -/
 def cgStmt (lv : Nat) : Stmt → Bool
   | .op n ps => cgSimple (.op n ps)
   | .inl c cp n ps => cgSimple (.inl c cp n ps)
@@ -49,6 +51,9 @@ def cgStmt (lv : Nat) : Stmt → Bool
   | .end_ => true
   | .hold => true
   | .ite _ hdrs body elifs _ els => hdrs.all (fun h => isTest h.name) && cgStmts lv body && cgElifs lv elifs && cgStmts lv els
+  | .label _ => decide (4 ≤ lv)
+  | .jump _ => decide (4 ≤ lv)
+  | .call _ => decide (4 ≤ lv)
   | .brk => decide (3 ≤ lv)
   | .switch hdr cs => decide (3 ≤ lv) && nameOK hdr.name && !Beh.endsFlow hdr.name && !cs.isNil && decide (countDefaults cs ≤ 1) &&
       cgCases lv hdr.name cs
@@ -67,6 +72,29 @@ def cgElifs (lv : Nat) : Elifs → Bool
 def cgCases (lv : Nat) (sw : String) : Cases → Bool
   | .nil => true
   | .cons d name _ body r => (d || (isTest name && isTest (caseName sw name))) && !loneExit body && cgStmts lv body && cgCases lv sw r
+end
+
+mutual
+/-- the user labels a statement mentions (defines, jumps to, calls) -/
+def mlStmt : Stmt → List String
+  | .label n => [n]
+  | .jump n => [n]
+  | .call n => [n]
+  | .ite _ _ body elifs _ els => mlStmts body ++ mlElifs elifs ++ mlStmts els
+  | .switch _ cs => mlCases cs
+  | .forever body => mlStmts body
+  | .while_ _ _ body => mlStmts body
+  | .for_ init _ inc body => mlStmt init ++ mlStmt inc ++ mlStmts body
+  | _ => []
+def mlStmts : Stmts → List String
+  | .nil => []
+  | .cons s r => mlStmt s ++ mlStmts r
+def mlElifs : Elifs → List String
+  | .nil => []
+  | .cons _ _ body r => mlStmts body ++ mlElifs r
+def mlCases : Cases → List String
+  | .nil => []
+  | .cons _ _ _ body r => mlStmts body ++ mlCases r
 end
 
 theorem simpleOK_congr {cx : Cx} {items : List LItem} {t1 t2 : Nat → Src.B → Src.B × Nat}
